@@ -59,6 +59,9 @@ def species_set():
         a = sp[key]['atoms']
         for src, dst in copies:
             a[dst] = (a[src][0], a[dst][1], a[dst][2])
+    # S4's residue has the name of S1's and its atom names begin with S1's atom names (N CA C / N CA C OT)
+    a1, a4 = sp['S1']['atoms'], sp['S4']['atoms']
+    sp['S4']['atoms'] = [(a1[k][0], a4[k][1], a4[k][2]) for k in range(3)] + [a4[3]]
     # the repeated residue of S3 has the same atom names in both copies
     a = sp['S3']['atoms']
     sp['S3']['atoms'] = [a[0], a[1], (a[0][0], a[2][1], a[2][2]), (a[1][0], a[3][1], a[3][2]), a[4]]
